@@ -9,6 +9,68 @@ TB = ("Trusted: Lean 4.33 kernel; axioms propext/Classical.choice/Quot.sound onl
       "(generators, canonicalisation, oracle). The tie model<->code is regenerated facts + behavioural correspondence (a search).")
 
 CHECKS = {
+ "C02": dict(
+  text="Lean model of the commit protocol of embedded/store/immustore.go at lock granularity (own and replicated precommit with every guard in Go's order, "
+       "performPrecommit, mayCommit/sync, DiscardPrecommittedTxsSince, AllowCommitUpto, SetExternalCommitAllowance, Close, Open incl. the reload of precommitted txs; tx log "
+       "and commit log as physical record lists written only at precommittedTxLogSize / committedTxID, the binary-linking tree with its never-truncated files). Theorems for an "
+       "arbitrary hash, unbounded op sequences: step_committed_prefix / reachable_committed_mono (the committed list only grows at the end: ids dense, never re-assigned, records "
+       "never change, across failing commits, discards, replication, close/reopen), committed_history_wellformed (PrevAlh chain, reported state = Alh of the last committed tx), "
+       "discard_never_touches_committed, replicated_precommit_preserves_inv, step_preserves_inv_partial + open_preserves_inv_quiescent (BlRoot_k = reference Merkle root over the first "
+       "BlTxID_k accumulated hashes; tie to C01's Hist), interleave_eq_serial (any interleaving of committers = serial run in id order, atomicity of the critical section stated as "
+       "the assumption s.mutex provides), and the NEGATIVE result open_breaks_binary_linking (witness run) for the defect found. Tie: every op of random sequential sequences, scripted "
+       "scenarios and concurrent runs on the real store.Open (configs crossed: synced/unsynced, embedded values, prealloc, header v0/v1, IO concurrency, tiny file sizes, small "
+       "MaxActiveTransactions, external allowance, tree sync threshold) is sent to the Lean driver; assigned id, Alh, error class, committed/precommitted ids and hashes must agree "
+       "step by step. Oracle (model-independent): record at ack / first sight, whole history re-read after every step through ReadTx, ReadTxHeader, ExportTx, ReadValue, TxReader "
+       "asc/desc, CommittedAlh against independent reference Alh / entries-root / Merkle-root computations.",
+  note=TB + " Modelled rather than verified: atomicity of critical sections (lock granularity; goroutine interleavings below that and the watcher hubs are only sampled by the "
+       "concurrent runs), tx-log/commit-log at record granularity (byte layout, chunk rotation and flush timing are exercised by the harness, not modelled; bytes beyond a rewound "
+       "offset are assumed never to parse again, which the harness avoids relying on after a failed cLogBuf.put), the KV index (precondition verdicts are supplied by the harness), "
+       "a pooled tx holder's stale BlRoot when BlTxID = 0 (known finding; an input of the model ops, observed on the stored header). Four genuine defects are registered as known findings.",
+  technique="Lean 4 proof (invariant + induction over op lists) + step-by-step differential correspondence + full-history re-read oracle on the real store",
+  design="7/C02"),
+ "C19": dict(
+  text="Lean theorems about a model of the document layer that mirrors embedded/document (typed view computed at upsert time by "
+       "structValueFromFieldPath/structValueToSqlValue incl. the amd64 float->int64 conversion, NULL as smallest value, DNF filters, ORDER BY/OFFSET/LIMIT, "
+       "count, audit, replace- and delete-by-query), unbounded in documents, schemas, histories and queries of the fragment: insert_get_roundtrip (get returns "
+       "exactly the stored document + _id; the stored row is the typed view), search_exact and search_sound (a document is returned iff it is live and its stored "
+       "typed view satisfies the filter; nothing else for any paging), search_sorted (adjacent results in ORDER BY order, NaN-free data), paging_partition + "
+       "search_nodup (pages concatenate to the unpaged result, no duplicates), count_eq_length, audit_lists_all_revisions_in_order, replace_adds_revision, "
+       "delete_removes_from_search_not_from_audit, witness typed_view_integer_conversion (2.7 -> 2, 1e308 -> -2^63). "
+       "Tie: the real document.Engine and the pkg/database document API run generated schemas (fields/indexes added and removed), documents (nested, null/missing, "
+       "numeric edge values, unicode, long strings), insert/replace/delete histories and queries on a collection with indexes and its index-free twin; every operation of "
+       "the fragment is replayed on the Lean driver (same ids, same id lists modulo ties, same revisions, same error classes). Model-independent oracle: in-memory "
+       "document list + Go interpreter of the query language on the explicitly stated typed view (get/search/order/paging/count/twin/unique/audit/reopen) and "
+       "ProofDocument + VerifyDocument accept genuine and reject 15 kinds of altered documents/proofs/states.",
+  note=TB + " Modelled rather than verified / outside the Lean fragment (oracle only): UUID fields, LIKE/NOT_LIKE, secondary and unique indexes and the SQL planner, "
+       "field-name validation, id generation, document proofs (C01 covers the proof primitives), the protobuf payload encoding. Ties (equal sort keys) are compared "
+       "modulo order because the engine sorts with the unstable sort.Slice. float->int64 is modelled as amd64 CVTTSD2SI. Known findings (26 signatures, 9 root causes) "
+       "are genuine defects of /repo, see known_findings.json.",
+  technique="Lean 4 proof (list induction over a small executable spec) + differential correspondence against embedded/document and pkg/database + model-independent oracle with classified quirks",
+  design="7/C19"),
+ "C04": dict(
+  text="Lean theorems (unbounded histories, any index spec, any grouping of the log into bulks): index_refines_log — the model of indexer.indexSince/doIndexing "
+       "(source-prefix filter, non-indexable skip, source/target mappers, injective-mapping tombstone, IncreaseTs/BulkInsert on a multi-version map mirroring "
+       "tbtree's insert rules) never fails and leaves, for every key, exactly the versions LogView prescribes, where LogView is a comprehension over the committed "
+       "entries that knows nothing of bulks, buffers or trees; bulk_partition_independent / indexBulk_append; on any tree that refines the log: get_latest, "
+       "get_absent/deleted/expired_notfound, getBetween_exact, history_consecutive_revisions (+history_errors), scan_exact_sorted (sorted, exact membership, offset), "
+       "prefix_lookup_exact, logview_latest; one_live_mapped_key_per_row_partial for injective secondary indexes; read_filters_match_code (filter lists regenerated from the tree). "
+       "The code AS IT IS is mirrored too (key aliasing model; Quirks switches for the two injective-branch defects, detected behaviourally at every run so the tie stays exact before and after each repair) "
+       "and the negation is proved by concrete witnesses: index_refines_log_fails_with_aliasing (F1), stale_mapped_key_in_bulk, stale_mapped_key_expirable_prev, kvs_overflow_panics, "
+       "snapshot_history_wrong_revisions. Tie: real embedded/store with IndexOptions crossed (MaxBulkSize 1..16, adaptive bulks, flush/sync thresholds, node size at the "
+       "minimum, cache 1.., buffered-data limits, 1..4 indexes incl. SQL-shaped two-level injective mappers) over histories with overwrites, logical deletes, expirations, "
+       "non-indexable entries, empty values, many keys per tx, long shared prefixes and max-length keys, three commit modes (synchronous; indexers closed during a batch so that "
+       "the bulk partition is known exactly; concurrent AsyncCommit writers), interleaved flush/compaction/close+reopen; after WaitForIndexingUpto every key is read through "
+       "Get, GetBetween, GetWithPrefix, History (offsets/limits/orders), Snapshot.Get/History, KeyReader (ranges, prefixes, filters, offsets, history) and, in a second stage, "
+       "through pkg/database Get/Get-at-revision/GetAll/Scan/History/Count; every answer is compared with the Lean driver (which runs the indexer model in the same bulk partition, "
+       "aliased or owned as observed) and with an independent Go replay of the acknowledged commits (index content = log, each read API = function of the index content).",
+  note=TB + " Modelled rather than verified: the B-tree itself (nodes, cache, flush, history log, compaction, recovery) is abstracted to a sorted multi-version map — C10's subject; "
+       "value offsets and tx metadata are not part of the compared answers; mappers are total functions; time is an injected `now` (the code uses time.Now(), the harness keeps expirations "
+       "10^6 s away from it); which index serves a key (getIndexerFor iterates a Go map: nested target prefixes would make it order dependent) is fixed by using non-nested prefixes; "
+       "the asynchronous interleaving of indexer and writers is sampled (burst mode), not enumerated — no hook exists in /repo; when the bulk partition is unknown (burst) and a known defect "
+       "made the content partition dependent the Lean comparison of that case is skipped and counted (oracle still applies). one_live_mapped_key_per_row is proved for a target mapper over a "
+       "plain source index (no source mapper). Known findings: 7 signatures, all reproduced by deterministic probes on every run (see known_findings.json).",
+  technique="Lean 4 proof (refinement of a log comprehension by a bulk indexer on a sorted multi-version association list; list induction) + differential correspondence against the real embedded/store and pkg/database",
+  design="7/C04"),
  "C03": dict(
   text="Lean theorems about a record-granularity model of the commit/sync/recovery protocol (micro-steps in the code's order: value-log append, tx-log "
        "SetOffset+Append, sync() = vlog sync, tx-log sync, commit-log SetOffset/Append/Sync, acknowledgement; external commit allowance; buffer-full "
